@@ -10,6 +10,7 @@ import AslModel.Crash
 import Proofs.C03
 import Proofs.Lemmas.CrashSeq
 import Proofs.Lemmas.CrashSeqF1
+import Proofs.Lemmas.CrashFlatMain
 namespace Asl.C04
 open Asl
 
@@ -103,42 +104,158 @@ theorem count_le_one_of_nodup (xs : List Nat) (x : Nat) (h : xs.Nodup) : count x
       exact ih'
 
 open Asl.Crash in
-/-- what the harness would see of an execution that ended as `cfgEnd`: terminal, one notification, no request
-sent twice, nothing pending, nothing left to do -/
-theorem observe_ended (nextId : Nat) (sent : List Nat) (running : Nat) (hnd : sent.Nodup) :
-    observe (cfgEnd nextId sent running) =
-      { terminal := true, notes := 1, resent := [], pendingUnsent := [], pendingLost := [], quiet := true } := by
-  have hr : (sent.eraseDups).filter (fun x => decide (count sent x > 1)) = [] := by
+/-- what the harness would see of an execution that has ended (`Ended`): terminal, one notification, no request sent
+twice, nothing pending, nothing left to do -/
+theorem observe_ended (N : Nat) (c : Cfg) (h : Ended N c) :
+    observe c = { terminal := true, notes := 1, resent := [], pendingUnsent := [], pendingLost := [], quiet := true } := by
+  have hr : (c.sent.eraseDups).filter (fun x => decide (count c.sent x > 1)) = [] := by
     rw [List.filter_eq_nil_iff]
     intro x _
-    have := count_le_one_of_nodup sent x hnd
+    have := count_le_one_of_nodup c.sent x h.sentnd
     simp; omega
-  simp [observe, cfgEnd, nextOp, hr]
+  simp [observe, nextOp, hr, h.evq, h.rpq, h.notes, h.timers, h.pending, h.orphans]
+
+/-! #### (i) sequences of Task visits (first attempts and retries), plain steps and Waits -/
 
 open Asl.Crash in
-/-- **(i)** For every number `N` of Task visits and every schedule — any operations in any order that the
-protocol has enabled, the engine dying and restarting between two handler invocations any number of times,
-at any points —, letting the engine run on crash-free ends the execution: the terminal notification is
-sent (once), each of the `N` requests has been sent exactly once (none twice: "not requested again"; none
-missing), and nothing is left pending or in the queues.  (Invariant over the operation list, no bound on
-its length: `Proofs/Lemmas/CrashSeq.lean`.) -/
-theorem crash_safe_task_sequences (N : Nat) (ops : List Op) (c : Cfg)
-    (hr : Crash.run Quirks.none (init (tasks N)) (ops.map (fun o => (o, none))) = some c) :
-    ∃ nextId sent running, drain Quirks.none (mu c) c = cfgEnd nextId sent running ∧
-      sent.Nodup ∧ sent.length = N ∧
+/-- **Exactly once.**  For every sequence `sk` of Task visits — each event carrying any RetryCount: the event of a retry
+sends its request from the back-off timer —, plain steps and Waits, and every schedule — any operations in any order
+that the protocol has enabled, the engine dying and restarting between two handler invocations any number of times, at
+any points —, letting the engine run on crash-free ends the execution (`Ended`): exactly one terminal notification, each
+of the `tasksIn sk` requests sent exactly once (none twice: a redelivered event, first attempt or retry, whose request
+is on record as sent does not send it again; none missing), and nothing is left in the event queue, the reply queue or
+the engine's memory.  (Invariant over the operation list, no bound on its length: `Proofs/Lemmas/CrashSeq.lean`.) -/
+theorem crash_safe_sequences (sk : Sk) (hsk : sk.seq = true) (ops : List Op) (c : Cfg)
+    (hr : Crash.run Quirks.none (init sk) (ops.map (fun o => (o, none))) = some c) :
+    Ended (tasksIn sk) (drain Quirks.none (mu c) c) ∧
       observe (drain Quirks.none (mu c) c) =
         { terminal := true, notes := 1, resent := [], pendingUnsent := [], pendingLost := [], quiet := true } := by
-  have hi := inv_run (N := N) _ c ops (inv_init N) hr
-  obtain ⟨nextId, sent, running, hd, hnd, hlen⟩ := drain_ends (N := N) (mu c) c hi (Nat.le_refl _)
-  exact ⟨nextId, sent, running, hd, hnd, hlen, by rw [hd]; exact observe_ended nextId sent running hnd⟩
+  have hi := sinv_run _ c _ (sinv_init sk hsk) hr
+  have hc := cons_run (tasksIn sk) _ c ops (sinv_init sk hsk) (cons_init sk) hr
+  obtain ⟨hi', hq⟩ := sdrain (mu c) c hi (Nat.le_refl _)
+  have he := ended_of_quiet hi' (sdrain_cons (tasksIn sk) (mu c) c hi hc) hq
+  exact ⟨he, observe_ended _ _ he⟩
+
+open Asl.Crash in
+/-- **No loss at any cut.**  The same sequences under every schedule whose handler invocations may, each, be cut short
+by a crash after any number of their broker operations (and crashes between invocations, any number of both): the
+execution is not lost — the crash-free run that follows comes to rest with the terminal notification sent (at least
+once: a handler cut after the notification and before the acknowledgement repeats it, which is why the property asks
+for less here), no event left, no timer or request pending, and still no correlation id requested twice; what may be
+left in the reply queue are replies to requests that were sent (their event acknowledged, their own acknowledgement
+cut off). -/
+theorem no_loss_under_cuts_sequences (sk : Sk) (hsk : sk.seq = true) (sched : Sched) (c : Cfg)
+    (hr : Crash.run Quirks.none (init sk) sched = some c) :
+    let c' := drain Quirks.none (mu c) c
+    c'.evq = [] ∧ 1 ≤ c'.notes ∧ c'.sent.Nodup ∧ c'.timers = [] ∧ c'.pending = [] ∧ nextOp c' = none ∧
+      (∀ r ∈ c'.rpq, r.corr ∈ c'.sent) := by
+  have hi := sinv_run _ c _ (sinv_init sk hsk) hr
+  obtain ⟨hi', hq⟩ := sdrain (mu c) c hi (Nat.le_refl _)
+  have hev := quiet_empty _ hi' hq
+  refine ⟨hev, ?_, hi'.dur.sentnd, ?_, ?_, hq, ?_⟩
+  · rcases hi'.dur.alive with h | h
+    · simp [evK, hev] at h
+    · exact h
+  · apply List.eq_nil_iff_forall_not_mem.mpr
+    intro t ht; have := hi'.vol.t_sub t ht; rw [hev] at this; cases this
+  · apply List.eq_nil_iff_forall_not_mem.mpr
+    intro t ht; have := (hi'.vol.p_sub t ht).1; rw [hev] at this; cases this
+  · intro r hr'; exact hi'.dur.corrsent _ (List.mem_map.mpr ⟨r, hr', rfl⟩)
+
+open Asl.Crash in
+theorem tasks_seq (N : Nat) : (tasks N).seq = true ∧ tasksIn (tasks N) = N := by
+  induction N with
+  | zero => exact ⟨rfl, rfl⟩
+  | succ n ih => exact ⟨ih.1, by simp [tasks, tasksIn, ih.2]⟩
+
+open Asl.Crash in
+/-- the special case of `N` Task visits in a row (the statement this file started with) -/
+theorem crash_safe_task_sequences (N : Nat) (ops : List Op) (c : Cfg)
+    (hr : Crash.run Quirks.none (init (tasks N)) (ops.map (fun o => (o, none))) = some c) :
+    Ended N (drain Quirks.none (mu c) c) ∧
+      observe (drain Quirks.none (mu c) c) =
+        { terminal := true, notes := 1, resent := [], pendingUnsent := [], pendingLost := [], quiet := true } := by
+  have := crash_safe_sequences (tasks N) (tasks_seq N).1 ops c hr
+  rwa [(tasks_seq N).2] at this
 
 open Asl.Crash in
 /-- … which is the outcome of the crash-free run (the empty schedule) -/
 theorem crash_free_task_sequences (N : Nat) :
-    ∃ nextId sent running, drain Quirks.none (mu (init (tasks N))) (init (tasks N)) = cfgEnd nextId sent running ∧
-      sent.Nodup ∧ sent.length = N := by
-  obtain ⟨a, b, c, h1, h2, h3, _⟩ := crash_safe_task_sequences N [] (init (tasks N)) (by simp [Crash.run])
-  exact ⟨a, b, c, h1, h2, h3⟩
+    Ended N (drain Quirks.none (mu (init (tasks N))) (init (tasks N))) :=
+  (crash_safe_task_sequences N [] (init (tasks N)) (by simp [Crash.run])).1
+
+/-! #### (i') fan-outs: Parallel and Map states whose branches are such sequences -/
+
+open Asl.Crash in
+/-- **Exactly once, with fan-outs.**  For every *flat* skeleton `sk` — Task visits (first attempts and retries), plain steps
+and Waits, and any number of Parallel / Map states (without MaxConcurrency), one after the other, each with any number of
+branches that are sequences of Task visits, steps and Waits — and every schedule — any interleaving of the branches'
+operations that the protocol has enabled, the engine dying and restarting between two handler invocations any number of
+times, at any points (before the launch, between the branches' visits, with any part of the join filled) —, letting the
+engine run on crash-free ends the execution: exactly one terminal notification, each of the `tasksIn sk` requests (of the
+top level and of every branch) sent exactly once, and nothing left in the event queue, the reply queue or the engine's
+memory (timers, pending requests, orphans, joins).  The join a crash wiped is rebuilt from the redelivered held events and
+held replies; nothing is requested again.  (`Proofs/Lemmas/CrashFlat*.lean`: the invariant `PInv` over the operation list,
+no bound on its length, on the number of branches or on the number of fan-out states.) -/
+theorem crash_safe_flat (sk : Sk) (hsk : sk.flat = true) (ops : List Op) (c : Cfg)
+    (hr : Crash.run Quirks.none (init sk) (ops.map (fun o => (o, none))) = some c) :
+    Ended (tasksIn sk) (drain Quirks.none (mu2 c) c) ∧
+      observe (drain Quirks.none (mu2 c) c) =
+        { terminal := true, notes := 1, resent := [], pendingUnsent := [], pendingLost := [], quiet := true } := by
+  have hi := prun _ c ops (pinv_init sk hsk) hr
+  obtain ⟨hi', hq⟩ := pdrain (mu2 c) c hi (Nat.le_refl _)
+  have he := pended hi' hq
+  exact ⟨he, observe_ended _ _ he⟩
+
+open Asl.Crash in
+/-- The full-strength statement: the quirk-free protocol is crash-safe on skeleton `sk` — every schedule with crashes
+between handler invocations anywhere ends, after a crash-free run, with one terminal notification, every request (Task
+visits of all levels, child executions started) sent exactly once and nothing left behind. -/
+def CrashSafe (sk : Sk) : Prop :=
+  ∀ (ops : List Op) (c : Cfg), Crash.run Quirks.none (init sk) (ops.map (fun o => (o, none))) = some c →
+    ∃ fuel, Ended (tasksIn sk) (drain Quirks.none fuel c)
+
+open Asl.Crash in
+/-- `CrashSafe` is proved for flat skeletons (which include all sequences).  What is missing for `∀ sk, CrashSafe sk` (on
+skeletons without `fail` / `opaque`): Map states with MaxConcurrency (the batches and their re-entry events — the model has
+them, with the durable record of started batches, and `decide` examples below run them —, not yet in the invariant), fan-out
+states nested in branches (the crash-safe hand-over of a nested join's held events to the enclosing join), and synchronous
+child executions (a second execution whose terminal answer is a message of the reply queue). -/
+theorem crash_safe_partial (sk : Sk) (hsk : sk.flat = true) : CrashSafe sk :=
+  fun ops c hr => ⟨mu2 c, (crash_safe_flat sk hsk ops c hr).1⟩
+
+open Asl.Crash in
+/-- sequences are flat: `crash_safe_sequences` is the instance without fan-out states -/
+theorem crash_safe_sequences_flat (sk : Sk) (hsk : sk.seq = true) : CrashSafe sk :=
+  crash_safe_partial sk (flat_of_seq hsk)
+
+namespace Witness
+open Asl.Crash
+/-- a Task whose first attempt fails and is retried (the retry's event carries RetryCount 1), then a step -/
+def retried : Sk := .task 0 (.task 1 (.step .done))
+/-- the retry's request is out (sent from its back-off timer), the engine dies, the retry's event is redelivered and its
+deferred handler runs again -/
+def schedRetry : Sched :=
+  [(.ev 0, none), (.tm 0, none), (.rp 0, none), (.ev 1, none), (.tm 1, none), (.crash, none), (.ev 1, none), (.tm 1, none)]
+/-- the last handler of one Task visit cut short after its first broker operation (the terminal notification) -/
+def schedCutNote : Sched := [(.ev 0, none), (.rp 0, some 1)]
+end Witness
+
+open Asl.Crash Witness in
+/-- the path the seeded change S-C04-4 breaks, concretely: a redelivered *retry* event whose request is out does not send it
+again — in the crash-safe protocol (the request is on record) and in the engine's (a redelivered event is taken to have
+been requested) -/
+theorem redelivered_retry_not_resent :
+    (Crash.run Quirks.none (init retried) schedRetry).map (fun c => (c.sent, (observe (drain Quirks.none 200 c)).resent, (observe (drain Quirks.none 200 c)).terminal)) =
+      some ([0, 1], [], true) ∧
+    (Crash.run Quirks.engine (init retried) schedRetry).map (fun c => (c.sent, (observe (drain Quirks.engine 200 c)).resent, (observe (drain Quirks.engine 200 c)).terminal)) =
+      some ([0, 1], [], true) := by decide +kernel
+
+open Asl.Crash Witness in
+/-- why `no_loss_under_cuts_sequences` says "at least once": a cut after the terminal notification repeats it -/
+theorem cut_repeats_terminal_notification :
+    (Crash.run Quirks.none (init (tasks 1)) schedCutNote).map (fun c => (drain Quirks.none 200 c).notes) = some 2 := by
+  decide +kernel
 
 /-! ### (ii) each quirk breaks it: the formal counterparts of the open findings C04-F1, C04-F2, C04-F4
 
@@ -151,8 +268,8 @@ def nc (op : Op) : Op × Option Nat := (op, none)
 /-- does the run get stuck? (`none`: the schedule is not executable) -/
 def stuckAfter (q : Quirks) (sk : Sk) (sched : Sched) : Option Bool :=
   (Crash.run q (init sk) sched).map (fun c => stuck (drain q 200 c))
-def par2 : Sk := .par 0 (.cons (.task .done) (.cons (.task .done) .nil)) (.step .done)
-def nested : Sk := .par 0 (.cons (.par 0 (.cons (.step .done) .nil) .done) (.cons (.task .done) .nil)) .done
+def par2 : Sk := .par 0 (.cons (.task 0 .done) (.cons (.task 0 .done) .nil)) (.step .done)
+def nested : Sk := .par 0 (.cons (.par 0 (.cons (.step .done) .nil) .done) (.cons (.task 0 .done) .nil)) .done
 /-- the Task's event is delivered, the engine dies before the deferred handler sends the request -/
 def schedF1 : Sched := [nc (.ev 0), nc .crash]
 /-- both branches' requests are out, the first reply is handled (and acknowledged), the engine dies -/
@@ -200,7 +317,9 @@ theorem quirks_only_hurt_at_their_window (N : Nat) (ops : List Op) (c : Cfg)
         { terminal := true, notes := 1, resent := [], pendingUnsent := [], pendingLost := [], quiet := true } := by
   have hi := inv1_run (N := N) _ c ops (inv1_init N) hr
   obtain ⟨nextId, sent, running, hd, hnd, hlen⟩ := drain1_ends (N := N) (mu1 c) c hi (Nat.le_refl _)
-  exact ⟨nextId, sent, running, hd, hnd, hlen, by rw [hd]; exact observe_ended nextId sent running hnd⟩
+  refine ⟨nextId, sent, running, hd, hnd, hlen, ?_⟩
+  rw [hd]
+  exact observe_ended N _ ⟨rfl, rfl, rfl, hnd, hlen, rfl, rfl, rfl, rfl⟩
 
 open Asl.Crash Witness in
 /-- the window is exactly where the witness of (ii) crashes, and a crash one operation later (the request is out)
@@ -215,13 +334,41 @@ example : ((BQ.run [.publish 1, .publish 2, .deliver, .deliver, .ack 1, .publish
     = [{ id := 2, redelivered := true }, { id := 3 }] := by decide
 example : stepOrdered [.deliver 1, .pub, .pub, .ack 1] = true := by decide
 
-/-- hypothesis of `crash_safe_task_sequences`: a schedule of three Task visits with two crashes that is executable -/
-example : (Asl.Crash.run Asl.Crash.Quirks.none (Asl.Crash.init (Asl.Crash.tasks 3))
-    ([Asl.Crash.Op.ev 0, .crash, .ev 0, .rp 0, .ev 1, .crash, .rp 1, .ev 1, .tick].map (fun o => (o, none)))).isSome = true := by
+/-- hypothesis of `crash_safe_sequences`: a sequence with a retried Task, a Wait and a step, a schedule with three
+crashes that is executable -/
+example : (Asl.Crash.Sk.task 0 (.task 1 (.wait (.step .done)))).seq = true ∧
+    (Asl.Crash.run Asl.Crash.Quirks.none (Asl.Crash.init (.task 0 (.task 1 (.wait (.step .done)))))
+      ([Asl.Crash.Op.ev 0, .crash, .ev 0, .rp 0, .ev 1, .crash, .ev 1, .tm 1, .crash, .rp 1, .ev 1, .tm 1, .tick, .ev 2, .tm 2].map
+        (fun o => (o, none)))).isSome = true := by
+  decide +kernel
+/-- … of `no_loss_under_cuts_sequences`: handlers cut after 0, 1 and 2 broker operations -/
+example : (Asl.Crash.run Asl.Crash.Quirks.none (Asl.Crash.init (.task 0 (.step .done)))
+    [(.ev 0, some 0), (.ev 0, some 1), (.ev 0, none), (.rp 0, some 1), (.ev 0, none), (.rp 0, some 2), (.ev 1, none)]).isSome = true := by
   decide +kernel
 /-- … and of `quirks_only_hurt_at_their_window`: crashes outside the window -/
 example : (Asl.Crash.runW Asl.Crash.qF1 (Asl.Crash.init (Asl.Crash.tasks 2))
     [.ev 0, .tm 0, .crash, .rp 0, .ev 0, .tm 0, .tick, .crash, .ev 1]).isSome = true := by decide +kernel
+/-- hypothesis of `crash_safe_flat`: a Task, then a Parallel with three branches (a retried Task and a step; a Wait; a Task), then
+a step; a schedule with four crashes (before the launch, between the branches' visits, with part of the join filled) that is
+executable -/
+example : (Asl.Crash.Sk.task 0 (.par 0 (.cons (.task 0 (.task 1 (.step .done))) (.cons (.wait .done) (.cons (.task 0 .done) .nil)))
+      (.step .done))).flat = true ∧
+    (Asl.Crash.run Asl.Crash.Quirks.none (Asl.Crash.init (.task 0 (.par 0 (.cons (.task 0 (.task 1 (.step .done)))
+        (.cons (.wait .done) (.cons (.task 0 .done) .nil))) (.step .done))))
+      ([Asl.Crash.Op.ev 0, .rp 0, .ev 1, .crash, .ev 1, .tm 1, .ev 2, .ev 4, .crash, .ev 3, .tm 3, .rp 4, .ev 4, .ev 2, .tick,
+        .crash, .ev 2, .rp 2, .ev 3, .tm 3].map (fun o => (o, none)))).isSome = true := by
+  decide +kernel
+/-- beyond the proved class, by computation: a Map with MaxConcurrency 1 over two items (Task, then step) with a crash
+after the second batch was started — the crash-safe protocol does not start the batch again (two requests), the engine's
+does (three: the open finding C04-F7) -/
+example :
+    ((Asl.Crash.run Asl.Crash.Quirks.none (Asl.Crash.init (.par 1 (.cons (.task 0 (.step .done)) (.cons (.task 0 (.step .done)) .nil)) .done))
+      ([Asl.Crash.Op.ev 0, .tm 0, .ev 1, .rp 1, .ev 2, .ev 3, .tm 3, .crash, .ev 2].map (fun o => (o, none)))).map
+        (fun c => ((Asl.Crash.drain Asl.Crash.Quirks.none 200 c).sent.length, (Asl.Crash.drain Asl.Crash.Quirks.none 200 c).notes))) = some (2, 1) ∧
+    ((Asl.Crash.run { batchRelaunched := true } (Asl.Crash.init (.par 1 (.cons (.task 0 (.step .done)) (.cons (.task 0 (.step .done)) .nil)) .done))
+      ([Asl.Crash.Op.ev 0, .tm 0, .ev 1, .rp 1, .ev 2, .ev 3, .tm 3, .crash, .ev 2].map (fun o => (o, none)))).map
+        (fun c => ((Asl.Crash.drain { batchRelaunched := true } 200 c).sent.length, (Asl.Crash.drain { batchRelaunched := true } 200 c).notes))) = some (3, 1) := by
+  decide +kernel
 /-- the crash-safe protocol on the fan-out witnesses: the reply is held by the join / the nested join's events by the
 enclosing one, and the runs complete with every request sent once -/
 example : (Asl.Crash.run Asl.Crash.Quirks.none (Asl.Crash.init Witness.par2) Witness.schedF2).map
